@@ -7,7 +7,7 @@ from typing import AbstractSet, Iterable, Any
 import numpy as np
 
 # pylint: disable=cyclic-import
-from .epsilon_nfa import to_single_state
+from .epsilon_nfa import StateMerger
 from .finite_automaton import to_state, to_symbol
 from .hopcroft_processing_list import HopcroftProcessingList
 # pylint: disable=cyclic-import
@@ -337,8 +337,9 @@ class DeterministicFiniteAutomaton(NondeterministicFiniteAutomaton):
         groups = partition.get_groups()
         # Create a state for this
         to_new_states = {}
+        merger = StateMerger()
         for group in groups:
-            new_state = to_single_state(group)
+            new_state = merger.get_state(group)
             for state in group:
                 to_new_states[state] = new_state
         # Build the DFA
